@@ -152,6 +152,16 @@ class Prior(HoloPyObject):
                     return getattr(left, '__%s__' % operation)(right)
                 else:
                     return getattr(right, '__r%s__' % operation)(left)
+            for arg in args:
+                # (only numbers, priors and numeric arrays can be operands)
+                if isinstance(arg, np.ndarray):
+                    supported = arg.dtype.kind in 'biufc'
+                else:
+                    supported = isinstance(arg, (Number, Prior, np.bool_))
+                if not supported:
+                    raise TypeError(
+                        "Cannot apply {} to a prior and objects of type "
+                        "{}".format(ufunc.__name__, type(arg)))
             return TransformedPrior(ufunc, args, name)
         else:
             raise TypeError('Could not apply numpy ufunc to Prior object. '
